@@ -709,7 +709,109 @@ Proof.
       apply String.eqb_eq in Eao. rewrite Eao in *. rewrite Elook.
       step_if false ltac:(reflexivity).
       step. change (call_ref 0%nat) with (call_ref kFL). rewrite Hfl. rewrite Eao, Elook. cbn [enc_cfound]. rewrite enc_class_CLS. norm.
-      (*DBG*)
+      assert (Hnf : nth_error (Compile.overloads R.functions name) ci = Some co) by (apply function_lookup_nth in Elook; exact Elook).
+      rewrite (apply_fn name ci co ctx [a] Hnf : apply_class tbl mk (CLS false name ci co) [ctx; PList [nref a]] = _).
+      unfold func_node. rewrite Hagg. cbn [map].
+      set (CN := Compile.NFunc name ci [tbl a] (Compile.ov_out co) (Compile.ov_agg co)).
+      assert (Hcn : In CN (cast_nodes T (tbl a))).
+      { unfold cast_nodes. rewrite Ecast, Eao, Elook. now left. }
+      assert (Ha' : tbl (mk CN) = CN).
+      { apply Hheap; try reflexivity. unfold binary_allocs. fold T. rewrite !in_app_iff. right. left. exact Hcn. }
+      set (a' := mk CN) in *.
+      cbn.
+      (* pass 2 *)
+      step. norm. rewrite Ha'. cbn [Compile.dtype CN].
+      set (sg2 := [Compile.ov_out co; Compile.dtype (tbl b)]).
+      subst TL.
+      match goal with |- context [PyMini.exec_block _ _ ?ss (SFor _ ?it _ :: _)] =>
+        assert (Eit2 : eval ss it = Ok (ss, PList (enc_classes true op 0 ovs))) by reflexivity end.
+      step_for Eit2. fold bin_match. fold (cand_body "op" bin_match).
+      rewrite (cand_loop _ _ op sg2) by reflexivity.
+      unfold Compile.exact_lookup, Compile.overloads. rewrite Ea. fold sg2.
+      destruct (Compile.find_ov 0 ovs sg2) as [[i2 o2]|] eqn:Ef2.
+      * pose proof Ef2 as Ef2'. apply find_ov_nth in Ef2 as (_ & Hn2 & _). rewrite Nat.sub_0_r in Hn2.
+        assert (Hn2' : nth_error (Compile.overloads R.operators op) i2 = Some o2)
+          by (unfold Compile.overloads; now rewrite Ea).
+        cbn.
+        rewrite (apply_op op i2 o2 [a'; b] Hn2' : apply_class tbl mk (CLS true op i2 o2) [nref a'; nref b] = _).
+        norm. rewrite Ha'. cbn [Compile.is_const CN eqb]. norm. reflexivity.
+      * cbn [bind]. unfold last_class. rewrite Er.
+        cbn [bind write locals fields update String.eqb Ascii.eqb Bool.eqb].
+        apply String.eqb_neq in Hno.
+        step_if false ltac:(norm; rewrite ?Ha'; cbn [Compile.dtype CN]; conds).
+        step_if false ltac:(norm; rewrite ?Ha'; cbn [Compile.dtype CN]; conds).
+        norm. rewrite Ha'. cbn [Compile.dtype CN]. raise_tac.
+    + (* the RIGHT operand is untyped: cast it to the type of the left one *)
+      step_if false conds. step_if true conds.
+      step. norm. subst TL. fold promote_stmt.
+      rewrite (promote_step _ _ (Compile.dtype (tbl a))) by reflexivity.
+      cbn [write locals fields update String.eqb Ascii.eqb Bool.eqb].
+      set (T := Compile.cast_target (Compile.dtype (tbl a))).
+      step. rewrite unzs_zs.
+      destruct (Compile.assoc T R.cast_names) as [name|] eqn:Ecast.
+      2:{ step_if true ltac:(reflexivity). raise_tac. }
+      destruct (cast_found T name Ecast) as (ci & co & Elook & Hno & Hagg).
+      apply String.eqb_eq in Ebo. rewrite Ebo in *. rewrite Elook.
+      step_if false ltac:(reflexivity).
+      step. change (call_ref 0%nat) with (call_ref kFL). rewrite Hfl. rewrite Ebo, Elook. cbn [enc_cfound]. rewrite enc_class_CLS. norm.
+      assert (Hnf : nth_error (Compile.overloads R.functions name) ci = Some co) by (apply function_lookup_nth in Elook; exact Elook).
+      rewrite (apply_fn name ci co ctx [b] Hnf : apply_class tbl mk (CLS false name ci co) [ctx; PList [nref b]] = _).
+      unfold func_node. rewrite Hagg. cbn [map].
+      set (CN := Compile.NFunc name ci [tbl b] (Compile.ov_out co) (Compile.ov_agg co)).
+      assert (Hcn : In CN (cast_nodes T (tbl b))).
+      { unfold cast_nodes. rewrite Ecast, Ebo, Elook. now left. }
+      assert (Hb' : tbl (mk CN) = CN).
+      { apply Hheap; try reflexivity. unfold binary_allocs. fold T. rewrite !in_app_iff. right. right. left. exact Hcn. }
+      set (b' := mk CN) in *.
+      cbn.
+      (* pass 2 *)
+      step. norm. rewrite Hb'. cbn [Compile.dtype CN].
+      set (sg2 := [Compile.dtype (tbl a); Compile.ov_out co]).
+      subst TL.
+      match goal with |- context [PyMini.exec_block _ _ ?ss (SFor _ ?it _ :: _)] =>
+        assert (Eit2 : eval ss it = Ok (ss, PList (enc_classes true op 0 ovs))) by reflexivity end.
+      step_for Eit2. fold bin_match. fold (cand_body "op" bin_match).
+      rewrite (cand_loop _ _ op sg2) by reflexivity.
+      unfold Compile.exact_lookup, Compile.overloads. rewrite Ea. fold sg2.
+      destruct (Compile.find_ov 0 ovs sg2) as [[i2 o2]|] eqn:Ef2.
+      * pose proof Ef2 as Ef2'. apply find_ov_nth in Ef2 as (_ & Hn2 & _). rewrite Nat.sub_0_r in Hn2.
+        assert (Hn2' : nth_error (Compile.overloads R.operators op) i2 = Some o2)
+          by (unfold Compile.overloads; now rewrite Ea).
+        cbn.
+        rewrite (apply_op op i2 o2 [a; b'] Hn2' : apply_class tbl mk (CLS true op i2 o2) [nref a; nref b'] = _).
+        norm. rewrite ?Hb'. cbn [Compile.is_const CN eqb]. rewrite andb_false_r.
+        destruct (Compile.is_const (tbl a)); norm; rewrite ?Hb'; cbn [Compile.is_const CN]; norm; reflexivity.
+      * cbn [bind]. unfold last_class. rewrite Er.
+        cbn [bind write locals fields update String.eqb Ascii.eqb Bool.eqb].
+        apply String.eqb_neq in Hno.
+        step_if false ltac:(norm; rewrite ?Hb'; cbn [Compile.dtype CN]; conds).
+        step_if false ltac:(norm; rewrite ?Hb'; cbn [Compile.dtype CN]; conds).
+        norm. change (call_ref 1%nat) with (call_ref kN). rewrite Hname. norm. rewrite Hb'. cbn [Compile.dtype CN]. rewrite Hname. norm. reflexivity.
+    + (* both typed *)
+      step_if false conds. step_if false conds. raise_tac.
+Qed.
+
+(* the guard the unrolled `while True` ends in means nothing ... *)
+Lemma guard_is_stuck : prim "unroll:exhausted" [] = Stuck.
+Proof. reflexivity. Qed.
+
+(* ... and is never reached: three passes suffice (in fact two: a cast operand is no longer untyped, because no cast
+   function of the registry announces `object` - casts_checked).  Were the loop to need a fourth pass, the interpretation
+   of the unrolled body would be Stuck. *)
+Theorem binaryop_terminates : forall (t0 t1 t2 x y : pv) (op : string) (ra rb : Compile.result nat cerr)
+                                     (ovs : list Compile.overload),
+  @Compile.assoc (list Compile.overload) op R.operators = Some ovs ->
+  call_ref kC [t0; x] = enc_res (fun a => PTuple [t1; nref a]) ra ->
+  call_ref kC [t1; y] = enc_res (fun a => PTuple [t2; nref a]) rb ->
+  (forall name a, call_ref kFL [enc_functions; PStr name; PList [nref a]] =
+                  enc_cfound false name (Compile.function_lookup R.functions name [Compile.dtype (tbl a)])) ->
+  (forall a b n, ra = Compile.Ok a -> rb = Compile.Ok b -> In n (binary_allocs op (tbl a) (tbl b)) -> tbl (mk n) = n) ->
+  call_method call_ref prim compile_binaryop (flds t0) [INOP op x y] <> Stuck.
+Proof.
+  intros t0 t1 t2 x y op ra rb ovs Ea H1 H2 Hfl Hheap.
+  rewrite (binaryop_src t0 t1 t2 x y op ra rb ovs Ea H1 H2 Hfl Hheap).
+  destruct ra as [a|e]; [|discriminate]. destruct rb as [b|e]; [|discriminate].
+  destruct (Compile.build_binary op (tbl a) (tbl b)); discriminate.
 Qed.
 
 End Tie.
